@@ -34,12 +34,22 @@ func hParseRows(out string) (rows []hRow, ok bool) {
 			continue
 		}
 		rest = rest[3:]
-		d := 0
-		for strings.HasPrefix(rest, "  ") {
-			rest = rest[2:]
-			d++
+		w := 0
+		for strings.HasPrefix(rest, " ") {
+			rest = rest[1:]
+			w++
 		}
-		rows = append(rows, hRow{d, rest, nums[0]})
+		rows = append(rows, hRow{w, rest, nums[0]})
+	}
+	// depth = nesting of the indentation widths (any positive step per level)
+	var widths []int
+	for i := range rows {
+		w := rows[i].depth
+		for len(widths) > 0 && widths[len(widths)-1] >= w {
+			widths = widths[:len(widths)-1]
+		}
+		widths = append(widths, w)
+		rows[i].depth = len(widths) - 1
 	}
 	return
 }
